@@ -39,6 +39,18 @@ def install(world, clock, patch_cache_clocks=False):
     setg(mako.template, "tempfile", TempfileFacade(world, _real_tempfile))
     setg(mako.template, "shutil", ShutilFacade(world, _real_shutil))
 
+    # any other mako module that binds the stdlib clock modules (a refactoring may move a clock read):
+    # `time` reads the simulated wall clock (which clock faults can step back), `timeit` the monotonic one
+    import sys as _sys
+
+    for name, mod in list(_sys.modules.items()):
+        if mod is None or not (name == "mako" or name.startswith("mako.")):
+            continue
+        if mod.__dict__.get("time") is _real_time:
+            setg(mod, "time", tshim)
+        if mod.__dict__.get("timeit") is _real_timeit:
+            setg(mod, "timeit", TimeitShim(clock, _real_timeit))
+
     real_load = _saved.get(("mako.compat", "load_module"), (None, None, mako.compat.load_module))[2]
 
     def load_module(module_id, path):
